@@ -183,7 +183,8 @@ mod dictionary {
     impl Codec for DictionaryCodec {
         /// Decode a sequence of byte slices.
         fn decode<'a>(&'a self, bytes: &'a [u8]) -> &'a [u8] {
-            if let Some(bytes) = self.decode.get(bytes[0].into()) {
+            // An empty slice has no tag and is always a literal.
+            if let Some(bytes) = bytes.first().and_then(|tag| self.decode.get((*tag).into())) {
                 bytes
             } else {
                 bytes
@@ -208,9 +209,10 @@ mod dictionary {
             };
             // Stats stuff.
             self.stats.0.insert(bytes.to_owned());
-            let tag = bytes[0];
-            let tag_idx: usize = (tag % 4).into();
-            self.stats.1[tag_idx] |= 1 << (tag >> 2);
+            if let Some(&tag) = bytes.first() {
+                let tag_idx: usize = (tag % 4).into();
+                self.stats.1[tag_idx] |= 1 << (tag >> 2);
+            }
 
             index
         }
@@ -222,7 +224,8 @@ mod dictionary {
             for (thing, count) in stats.clone().flat_map(|stats| stats.stats.0.clone().done()) {
                 mg.update(thing, count);
             }
-            let mut mg = mg.done().into_iter();
+            // The empty string has no tag byte to carry a code, it is always stored literally.
+            let mut mg = mg.done().into_iter().filter(|(bytes, _)| !bytes.is_empty());
             // Establish encoding and decoding rules.
             let mut encode = BTreeMap::new();
             let mut decode = BytesMap::default();
